@@ -23,6 +23,11 @@ resolves *all* the couplings when some disciplines are only weakly coupled (``_c
 digraph with at least one coupling (15 / 511); for MDAChain every labelled digraph with self-loops (16 / 512: several
 SCCs, self-coupled and weakly coupled nodes, acyclic).
 
+Process disciplines as nodes (MDAChain family, ``nested_cases`` / ``top_level_nodes``): every ordered pair of nodes sharing
+a coupling is replaced by ONE process discipline - a sweep ``MDOChain([D_a, D_b])`` (self-coupled as a whole, does not solve
+its couplings; alone as a component and inside cycles, for every inner MDA class) or, for a 2-cycle, a nested MDAJacobi /
+MDAGaussSeidel - in every listing order of the top-level nodes; same oracles (every harness body re-executed, monolithic solve).
+
 Axes (first value = the class's default; tolerance 1e-10 and max_mda_iter 200 are fixed, serial execution is the
 base value of the parallel axis):
   acc          default + the 6 AccelerationMethod      omega  over_relaxation_factor in {1, 0.8, 1.2}
@@ -371,6 +376,7 @@ _G = {}
 def _gemseo():
     if _G:
         return _G
+    from gemseo.core.chains.chain import MDOChain
     from gemseo.core.discipline import Discipline
     from gemseo.mda.gauss_seidel import MDAGaussSeidel
     from gemseo.mda.gs_newton import MDAGSNewton
@@ -416,7 +422,7 @@ def _gemseo():
             self.jac = self.body.jac(self.io.data)
 
     _G.update(Harness=Harness, MDAJacobi=MDAJacobi, MDAGaussSeidel=MDAGaussSeidel, MDANewtonRaphson=MDANewtonRaphson,
-              MDAQuasiNewton=MDAQuasiNewton, MDAGSNewton=MDAGSNewton, MDASequential=MDASequential, MDAChain=MDAChain)
+              MDAQuasiNewton=MDAQuasiNewton, MDAGSNewton=MDAGSNewton, MDASequential=MDASequential, MDAChain=MDAChain, MDOChain=MDOChain)
     return _G
 
 
@@ -436,6 +442,38 @@ def _solver_settings(cls, case):
     if cls == "MDAQuasiNewton":
         s.update(method=case.get("method", "hybr"), use_gradient=bool(case.get("use_gradient", False)))
     return s
+
+
+def top_level_nodes(case, discs, nested):
+    """The disciplines handed to the MDA: the harness disciplines, or (``wrap``) two of them replaced by ONE process discipline:
+
+    * ``sweep``: ``MDOChain([D_a, D_b])`` - a user-made Gauss-Seidel sweep.  As a discipline it is self-coupled whenever a
+      variable read by D_a (or a self-loop) is written inside the chain, and it does NOT solve its couplings: one execution is
+      one sweep.  An MDAChain has to embed it in an inner MDA, alone or together with the other members of its component;
+    * ``MDAJacobi`` / ``MDAGaussSeidel``: a nested MDA over [D_a, D_b] that solves its own couplings (appended to ``nested``:
+      its stop criterion takes part in the returned data, so its report is read like the one of an inner MDA).
+
+    The top-level node list is [process, remaining harness disciplines in index order]; ``order`` permutes that list.
+    The oracles are untouched: every harness BODY is re-executed on the returned data, the reference is the monolithic
+    solve over all the output variables (the variable internal to the sweep included).  Bounds: the map on the top-level
+    couplings stays a q-contraction in the max-norm (an output computed from fresh values inside the process inherits their
+    error bound q ||e||; an exact sub-solve has gain (q - a) / (1 - a) <= q), so the derivation of the module docstring holds.
+    """
+    wrap = case.get("wrap")
+    if not wrap:
+        return list(discs)
+    g = _gemseo()
+    a, b = wrap["nodes"]
+    pair = [discs[a], discs[b]]
+    if wrap["kind"] == "sweep":
+        proc = g["MDOChain"](pair, name="sweep")
+    else:
+        kw = {"tolerance": TOL, "max_mda_iter": MAX_ITER}
+        if wrap["kind"] == "MDAJacobi":
+            kw["n_processes"] = 1
+        proc = g[wrap["kind"]](pair, **kw)
+        nested.append(proc)
+    return [proc, *[d for k, d in enumerate(discs) if k not in (a, b)]]
 
 
 def make_mda(case, discs):
@@ -509,6 +547,8 @@ def shape(case):
         sig["sequence"] = case["sequence"]
     if "inner" in case:
         sig["inner"] = case["inner"]
+    if case.get("wrap"):
+        sig["wrap"] = case["wrap"]["kind"]
     return sig
 
 
@@ -539,7 +579,14 @@ def run_case(case, tally):
         obs["violations"].append({"invariant": inv, "solver": solver, "message": msg})
 
     discs = _disciplines(sysm.bodies)
-    listed = [discs[k] for k in case["order"]]
+    nested = []
+    try:
+        tops = top_level_nodes(case, discs, nested)
+    except Exception as e:
+        viol("construction-raises", case.get("inner", case["cls"]), f"nested node: {type(e).__name__}: {str(e)[:300]}")
+        tally.case(case_key(case), nontrivial=False, outcome=f"{case['cls']}:construction-raises")
+        return obs
+    listed = [tops[k] for k in case["order"]]
     xs = [ALPHA["x"][case["input"]]]
     if case["runs"] == "twice":
         xs.append(ALPHA["x"][(case["input"] + 1) % 3])
@@ -567,7 +614,7 @@ def run_case(case, tally):
             all_conv = False
             break
         reports, s_fac, failed, short = [], 1.0, None, False
-        for name, m, decisive in _phases(mda):
+        for name, m, decisive in [*_phases(mda), *[x for m_ in nested for x in _phases(m_)]]:
             if name == "MDAQuasiNewton":  # no convergence report exists: SciPy's documented criteria
                 meth = str(m.settings.method)
                 if meth in ("hybr", "lm"):
@@ -784,13 +831,57 @@ def cases(thorough: bool):
                         yield from expand(cls, n, e, lp, 0)
 
 
+def nested_cases(thorough: bool):
+    """MDAChain whose nodes are process disciplines (see ``top_level_nodes``).
+
+    Every ordered pair (a, b) of nodes that share at least one coupling (edge either way or a self-loop) is replaced by a
+    sweep MDOChain([D_a, D_b]) - alone (n = 2), as a component of its own next to a weakly coupled / uncoupled third
+    discipline, and inside a cycle with it - for every inner MDA class; every 2-cycle pair by a nested MDAJacobi /
+    MDAGaussSeidel; every listing order of the top-level nodes.  quick: every n = 2 graph, the n = 3 isomorphism-class
+    representatives (all 6 ordered pairs of each, which supplies the relabellings; nested MDAs: a < b), the other inner MDA
+    classes on n = 2 and on the n = 3 graphs where the sweep is a component of its own (a < b, one listing order);
+    thorough: every labelled n = 3 graph x every ordered pair x every inner MDA x every listing order."""
+    for n in (2, 3):
+        allg = list(graphs(n))
+        glist = allg if (thorough or n == 2) else representatives(allg, n)
+        base_axes = axes_for("MDAChain", n)
+        base = {k: v[0] for k, v in base_axes.items()}
+        for e, lp in glist:
+            es = {tuple(x) for x in e}
+            scc = sccs(n, list(es))
+            for a, b in itertools.permutations(range(n), 2):
+                inside = (a, b) in es or (b, a) in es or a in lp or b in lp
+                if not inside:
+                    continue
+                rest = [k for k in range(n) if k not in (a, b)]
+                own_component = all(scc[k] != scc[a] and scc[k] != scc[b] for k in rest)
+                kinds = ["sweep"] + (["MDAJacobi", "MDAGaussSeidel"] if (a, b) in es and (b, a) in es else [])
+                for kind in kinds:
+                    if not thorough and n == 3 and kind != "sweep" and a > b:
+                        continue  # quick: one member order for the nested MDAs
+                    for inner in (INNER if kind == "sweep" else INNER[:1]):
+                        orders = list(itertools.permutations(range(1 + len(rest))))
+                        if inner != INNER[0] and not thorough and n == 3:
+                            if not (own_component and a < b):
+                                continue  # quick: the other inner MDA classes where the sweep is a component of its own
+                            orders = orders[:1]
+                        for order in orders:
+                            c = _finish("MDAChain", n, e, lp, {**base, "inner": inner, "_deviations": int(inner != INNER[0])})
+                            c["order"] = list(order)
+                            c["wrap"] = {"kind": kind, "nodes": [a, b]}
+                            yield c
+
+
 def run(ctx):
     global ALPHA, POOLED
     ALPHA = ctx.pick(ALPHABETS)
     POOLED = True
     _gemseo()
     only = getattr(ctx, "only", None)
-    todo = [c for c in cases(ctx.thorough) if not only or c["cls"] == only]
+    todo = [c for c in [*cases(ctx.thorough), *nested_cases(ctx.thorough)] if not only or c["cls"] == only]
+    ctx.tally.notes["nested_process_case_records"] = {
+        k: sum(1 for c in todo if c.get("wrap") and f"{c['wrap']['kind']}:n{c['n']}" == k)
+        for k in sorted({f"{c['wrap']['kind']}:n{c['n']}" for c in todo if c.get("wrap")})}
     counts = {}
     for c in todo:
         kk = f"{c['cls']}:n{c['n']}:dev{c['_deviations']}"
@@ -820,7 +911,10 @@ def run(ctx):
            "representatives")
         + "; the acceleration x relaxation product of the composite transformer (n = 2, and the strongly connected n = 3 representatives: "
         + ("every class with a transformer" if ctx.thorough else "Jacobi and Gauss-Seidel") + ").  A case is non-trivial when every solver loop reported convergence and at least one ran >= 3 iterations "
-        "(the update rule, not the first sweep, produced the returned point)",
+        "(the update rule, not the first sweep, produced the returned point).  MDAChain with process disciplines as nodes: every ordered "
+        "pair of coupled nodes replaced by a sweep MDOChain (x inner MDA class) or, for a 2-cycle, by a nested MDAJacobi / MDAGaussSeidel, "
+        "x every listing order ("
+        + ("every labelled graph" if ctx.thorough else "every n = 2 graph, the n = 3 isomorphism-class representatives") + ")",
         "exhaustive": True,
         "bounds": {"deviations": 2 if ctx.thorough else 1, "max_disciplines": 3, "sizes": [1, 2], "tolerance": TOL, "max_mda_iter": MAX_ITER,
                    "alphabet": ALPHA["name"], "process_based_execution": "as a single deviation only (every MDA iteration forks a process pool)",
